@@ -744,6 +744,115 @@ def _structural_tuples(mods):
                 taken.add(n.attr)
     fmap = {f: next(iter(ix)) for f, ix in index.items() if len(ix) == 1 and f not in taken}
 
+    # A field name that is also an ordinary attribute somewhere (`prune_states` of a mode record and of the game object) is not
+    # rewritten by name - but a variable that can only hold records of ONE named-tuple type is: a local bound only to `NT(...)`
+    # / `NT(*x)` / `NT._make(x)` / a module constant of that type, a loop variable over a module-level display of such records,
+    # `self` inside the methods of a named-tuple class.
+    mod_typed, mod_seq = {}, {}
+    def nt_type_of(e, local=None):
+        if isinstance(e, ast.Call):
+            fn = e.func
+            if isinstance(fn, ast.Name) and fn.id in nts:
+                return fn.id
+            if isinstance(fn, ast.Attribute) and fn.attr == "_make" and isinstance(fn.value, ast.Name) and fn.value.id in nts:
+                return fn.value.id
+        if isinstance(e, ast.Name):
+            if local and e.id in local:
+                return local[e.id]
+            return mod_typed.get(e.id)
+        return None
+    for m in mods.values():
+        for st in m.tree.body:
+            if isinstance(st, ast.Assign) and len(st.targets) == 1 and isinstance(st.targets[0], ast.Name):
+                ty = nt_type_of(st.value)
+                if ty:
+                    mod_typed[st.targets[0].id] = ty
+                elif isinstance(st.value, (ast.Tuple, ast.List)) and st.value.elts:
+                    tys = {nt_type_of(x) for x in st.value.elts}
+                    if len(tys) == 1 and None not in tys:
+                        mod_seq[st.targets[0].id] = next(iter(tys))
+    for m in mods.values():
+        for n in ast.walk(m.tree):
+            if isinstance(n, (ast.Assign, ast.AugAssign, ast.AnnAssign)) and not any(n is b for b in m.tree.body):
+                for t in (n.targets if isinstance(n, ast.Assign) else [n.target]):
+                    for x in ast.walk(t):
+                        if isinstance(x, ast.Name):
+                            mod_typed.pop(x.id, None) if False else None
+    def seq_type_of(e):
+        if isinstance(e, ast.Name):
+            return mod_seq.get(e.id)
+        if isinstance(e, (ast.Tuple, ast.List)) and e.elts:
+            tys = {nt_type_of(x) for x in e.elts}
+            if len(tys) == 1 and None not in tys:
+                return next(iter(tys))
+        return None
+    for m in mods.values():
+        for fn_ in [x for x in ast.walk(m.tree) if isinstance(x, (ast.FunctionDef, ast.AsyncFunctionDef))]:
+            binds = {}
+            a_ = fn_.args
+            for p_ in a_.posonlyargs + a_.args + a_.kwonlyargs + ([a_.vararg] if a_.vararg else []) + ([a_.kwarg] if a_.kwarg else []):
+                binds.setdefault(p_.arg, []).append(None)
+            for n in ast.walk(fn_):
+                if isinstance(n, ast.Assign):
+                    for t in n.targets:
+                        if isinstance(t, ast.Name):
+                            binds.setdefault(t.id, []).append(("val", n.value))
+                        else:
+                            for x in ast.walk(t):
+                                if isinstance(x, ast.Name) and isinstance(x.ctx, ast.Store):
+                                    binds.setdefault(x.id, []).append(None)
+                elif isinstance(n, (ast.For, ast.comprehension)):
+                    if isinstance(n.target, ast.Name):
+                        binds.setdefault(n.target.id, []).append(("elem", n.iter))
+                    else:
+                        for x in ast.walk(n.target):
+                            if isinstance(x, ast.Name):
+                                binds.setdefault(x.id, []).append(None)
+                elif isinstance(n, (ast.AugAssign, ast.AnnAssign, ast.NamedExpr)):
+                    for x in ast.walk(n.target):
+                        if isinstance(x, ast.Name):
+                            binds.setdefault(x.id, []).append(None)
+                elif isinstance(n, (ast.withitem,)) and n.optional_vars is not None:
+                    for x in ast.walk(n.optional_vars):
+                        if isinstance(x, ast.Name):
+                            binds.setdefault(x.id, []).append(None)
+                elif isinstance(n, ast.ExceptHandler) and n.name:
+                    binds.setdefault(n.name, []).append(None)
+                elif isinstance(n, (ast.Global, ast.Nonlocal)):
+                    for nm_ in n.names:
+                        binds.setdefault(nm_, []).append(None)
+            local = {}
+            for _ in range(3):
+                for nm_, bs in binds.items():
+                    if nm_ in local or None in bs or not bs:
+                        continue
+                    tys = {(nt_type_of(b[1], local) if b[0] == "val" else seq_type_of(b[1])) for b in bs}
+                    if len(tys) == 1 and None not in tys:
+                        local[nm_] = next(iter(tys))
+            # self of a method of a named-tuple class
+            owner_cls = getattr(fn_, "parent", None)
+            par = None
+            for c_ in ast.walk(m.tree):
+                if isinstance(c_, ast.ClassDef) and fn_ in c_.body:
+                    par = c_
+            if par is not None and par.name in nts and (a_.posonlyargs + a_.args) and not any(isinstance(d_, ast.Name) and d_.id in ("staticmethod", "classmethod") for d_ in fn_.decorator_list):
+                me_ = (a_.posonlyargs + a_.args)[0].arg
+                if binds.get(me_) == [None]:
+                    local[me_] = par.name
+            if not local:
+                continue
+
+            class TL(ast.NodeTransformer):
+                def visit_Attribute(self, node):
+                    self.generic_visit(node)
+                    if isinstance(node.ctx, ast.Load) and isinstance(node.value, ast.Name) and node.value.id in local:
+                        fields = nts[local[node.value.id]][0]
+                        if node.attr in fields:
+                            return ast.copy_location(ast.Subscript(value=node.value, slice=ast.Constant(value=fields.index(node.attr)), ctx=ast.Load()), node)
+                    return node
+            for i_, b_ in enumerate(fn_.body):
+                fn_.body[i_] = TL().visit(b_)
+
     class T(ast.NodeTransformer):
         def visit_Attribute(self, node):
             self.generic_visit(node)
@@ -811,9 +920,10 @@ def _structural_tuples(mods):
         body = [b for b in fn.body if not (isinstance(b, ast.Expr) and isinstance(b.value, ast.Constant))]
         a = fn.args
         if len(body) != 1 or not isinstance(body[0], ast.Return) or body[0].value is None or fn.decorator_list or a.vararg or a.kwarg or a.kwonlyargs \
-                or len(a.posonlyargs + a.args) != 1:
+                or len(a.posonlyargs + a.args) < 1 or a.defaults:
             continue
         me = (a.posonlyargs + a.args)[0].arg
+        extra_params = [x.arg for x in (a.posonlyargs + a.args)[1:]]
         # module constants of the defining module are written out (the expression moves to other modules)
         import builtins as _bi
         owner = next(m for m in mods.values() if any(fn in getattr(c_, "body", []) for c_ in m.tree.body))
@@ -823,7 +933,7 @@ def _structural_tuples(mods):
         class K_(ast.NodeTransformer):
             def visit_Name(self, n):
                 nonlocal closed
-                if n.id == me or hasattr(_bi, n.id):
+                if n.id == me or n.id in extra_params or hasattr(_bi, n.id):
                     return n
                 v = owner.consts.get(n.id)
                 if isinstance(v, ast.Constant):
@@ -835,20 +945,30 @@ def _structural_tuples(mods):
             continue
         body = [ast.Return(value=expr0)]
         uses = [n for n in ast.walk(body[0].value) if isinstance(n, ast.Name) and n.id == me]
-        if len(uses) == 1 and not any(isinstance(n, (ast.Lambda, ast.ListComp, ast.GeneratorExp, ast.SetComp, ast.DictComp, ast.Yield, ast.Await)) for n in ast.walk(body[0].value)):
-            one_liners[name] = (me, body[0].value)
+        if len(uses) >= 1 and not any(isinstance(n, (ast.Lambda, ast.ListComp, ast.GeneratorExp, ast.SetComp, ast.DictComp, ast.Yield, ast.Await, ast.NamedExpr)) for n in ast.walk(body[0].value)):
+            one_liners[name] = (me, body[0].value, extra_params, len(uses))
 
     class M(ast.NodeTransformer):
         def visit_Call(self, node):
             self.generic_visit(node)
-            if isinstance(node.func, ast.Attribute) and node.func.attr in one_liners and not node.args and not node.keywords:
-                me, expr = one_liners[node.func.attr]
+            if isinstance(node.func, ast.Attribute) and node.func.attr in one_liners and not node.keywords \
+                    and len(node.args) == len(one_liners[node.func.attr][2]) and not any(isinstance(x, ast.Starred) for x in node.args):
+                me, expr, extra, n_uses = one_liners[node.func.attr]
                 recv = node.func.value
+                simple = (ast.Name, ast.Constant)
+                # an operand that is written out more than once must be a plain name / constant (no effect is duplicated)
+                if (n_uses > 1 and not isinstance(recv, simple)) or (extra and not all(isinstance(x, simple) for x in node.args)):
+                    return node
                 new = _copy.deepcopy(expr)
+                argmap = dict(zip(extra, node.args))
 
                 class S(ast.NodeTransformer):
                     def visit_Name(self, n):
-                        return recv if n.id == me else n
+                        if n.id == me:
+                            return recv if n_uses == 1 else _copy.deepcopy(recv)
+                        if n.id in argmap:
+                            return _copy.deepcopy(argmap[n.id])
+                        return n
                 new = S().visit(new)
                 for x in ast.walk(new):
                     if x is not recv and not any(x is y for y in ast.walk(recv)):
@@ -1146,6 +1266,32 @@ class Program:
             except (ArithmeticError, TypeError, ValueError) as e:
                 raise NotConst(str(e))
             raise NotConst("binop")
+        if isinstance(node, ast.Compare):
+            import operator as _op
+            ops = {ast.Lt: _op.lt, ast.LtE: _op.le, ast.Gt: _op.gt, ast.GtE: _op.ge, ast.Eq: _op.eq, ast.NotEq: _op.ne}
+            left = ce(node.left)
+            for o_, c_ in zip(node.ops, node.comparators):
+                if type(o_) not in ops:
+                    raise NotConst("comparison")
+                right = ce(c_)
+                try:
+                    if not ops[type(o_)](left, right):
+                        return False
+                except TypeError as e:
+                    raise NotConst(str(e))
+                left = right
+            return True
+        if isinstance(node, ast.IfExp):
+            return ce(node.body) if ce(node.test) else ce(node.orelse)
+        if isinstance(node, ast.BoolOp):
+            v = None
+            for x in node.values:
+                v = ce(x)
+                if isinstance(node.op, ast.And) and not v:
+                    return v
+                if isinstance(node.op, ast.Or) and v:
+                    return v
+            return v
         if isinstance(node, (ast.Tuple, ast.List)):
             vals = [ce(e) for e in node.elts]
             return tuple(vals) if isinstance(node, ast.Tuple) else vals
@@ -1187,18 +1333,42 @@ class Program:
                 # a module-level helper that is a single `return <expression of its parameters>`
                 if isinstance(fn, ast.Name) and fn.id in mod.funcs and depth < 6:
                     h = mod.funcs[fn.id]
-                    body = [st for st in h.node.body if not (isinstance(st, ast.Expr) and isinstance(st.value, ast.Constant))]
-                    if len(body) == 1 and isinstance(body[0], ast.Return) and body[0].value is not None and len(args) <= len(h.params) and not h.vararg and not h.kwarg:
+                    if len(args) <= len(h.params) and not h.vararg and not h.kwarg:
                         env2 = dict(zip(h.params, args))
                         for p_, d_ in h.defaults.items():
                             if p_ not in env2:
                                 env2[p_] = self.const_eval(d_, mod, None, depth + 1)
                         if all(p_ in env2 for p_ in h.params):
-                            return self.const_eval(body[0].value, mod, env2, depth + 1)
+                            return self.eval_straightline(h, env2, depth + 1)
             except (ArithmeticError, TypeError, ValueError) as e:
                 raise NotConst(str(e))
             raise NotConst("call")
         raise NotConst(type(node).__name__)
+
+    def eval_straightline(self, h, env, depth=0):
+        """Value of a helper whose body is straight-line: `name = <closed expression>` statements followed by one `return`."""
+        env = dict(env)
+        NOTHING = object()
+
+        def block(stmts):
+            for st in stmts:
+                if isinstance(st, ast.Expr) and isinstance(st.value, ast.Constant):
+                    continue
+                if isinstance(st, ast.Assign) and len(st.targets) == 1 and isinstance(st.targets[0], ast.Name):
+                    env[st.targets[0].id] = self.const_eval(st.value, h.mod, env, depth + 1)
+                elif isinstance(st, ast.Return) and st.value is not None:
+                    return self.const_eval(st.value, h.mod, env, depth + 1)
+                elif isinstance(st, ast.If):
+                    r = block(st.body if self.const_eval(st.test, h.mod, env, depth + 1) else st.orelse)     # a test on folded values
+                    if r is not NOTHING:
+                        return r
+                else:
+                    raise NotConst("helper %s is not straight-line (%s)" % (h.name, type(st).__name__))
+            return NOTHING
+        r = block(h.node.body)
+        if r is NOTHING:
+            raise NotConst("helper %s does not end in a return" % h.name)
+        return r
 
     def try_const(self, node, mod, env=None):
         try:
